@@ -33,12 +33,15 @@ const (
 	shNegCmp
 	shMkdirCp
 	shChmodTwo
+	shTwoConds
 	shNumShapes
 )
 
 type vLine struct {
 	shape int
 	cond  int // condition index for [c] shapes
+	pol0, pol1 bool // shTwoConds: polarity of the two prefixes ([c0] / [!c0], [c1] / [!c1])
+	neg  bool // shTwoConds: ! after the prefixes
 }
 
 // VerifC01Verdict: scripts of up to K lines over the shape menu; probe
@@ -97,6 +100,21 @@ func VerifC01Verdict() {
 			sb.WriteString("mkdir d" + strconv.Itoa(i))
 		case shChmodTwo:
 			sb.WriteString("chmod 600 a.txt b.txt")
+		case shTwoConds:
+			l.pol0, l.pol1, l.neg = rt.Bool(), rt.Bool(), rt.Bool()
+			pre := "[c0] "
+			if !l.pol0 {
+				pre = "[!c0] "
+			}
+			if l.pol1 {
+				pre += "[c1] "
+			} else {
+				pre += "[!c1] "
+			}
+			if l.neg {
+				pre += "! "
+			}
+			sb.WriteString(pre + p)
 		}
 		sb.WriteString("\n")
 		lines[i] = l
@@ -181,6 +199,11 @@ func VerifC01Verdict() {
 			if conds[l.cond] {
 				ran[i] = true
 				lineFails = ok[i]
+			}
+		case shTwoConds:
+			if conds[0] == l.pol0 && conds[1] == l.pol1 {
+				ran[i] = true
+				lineFails = ok[i] == l.neg
 			}
 		case shStop:
 			stopped = true
